@@ -541,6 +541,9 @@ def run(ctx) -> None:
     ok = len(popen) == 1 and popen[0].args and shapes.flows_from(hr, popen[0].args[0], lambda e: isinstance(e, ast.Name) and e.id == hr.params[0])
     ctx.check("R6", ok, "hooks.run executes the configured hook path", "hooks.run: executes something else than the configured path", "", loc=hr.loc())
     shapes.check_passthrough(ctx, "R6", "vcs.commit", "hooks.run", {"old_version": "cfg.current_version", "new_version": "new_version"}, floor=2)
+    # cfg.current_version down there is the old version only if the configuration handed down is the one the old version was resolved into (C01/R1: same values announced and passed on)
+    from sa.report import run_prerequisite as _rp_c01
+    _rp_c01(ctx, "C01", ("R1",), "R6", only=lambda key: "old_version" in key or "resolved" in key)
 
     # ---------------------------------------------------------------- R7
     pvo = prog.function("cli._parse_vcs_options")
